@@ -287,7 +287,7 @@ example : RankedWF [([.one 0, .one 1, .one 2], 1), ([.one 0, .one 2, .one 1], 1)
 
 /-! ### PreferenceAddition: the pieces -/
 
-theorem mem_electedOf (c : Cand) (r : List Slot) : c ∈ electedOf r ↔ Slot.cand c ∈ r := by
+theorem mem_electedOf_seq (c : Cand) (r : List Slot) : c ∈ electedOf r ↔ Slot.cand c ∈ r := by
   induction r with
   | nil => simp [electedOf]
   | cons x xs ih =>
@@ -331,7 +331,7 @@ theorem selShape_prepend {cands K l : List Cand} {k : Nat} {best : List Slot} (h
     refine ⟨hl, hb.nodup, ?_⟩
     intro a ha b hb' hab
     subst hab
-    exact (hK a (hb.cand_ok a ((mem_electedOf a best).mp hb'))).2 ha
+    exact (hK a (hb.cand_ok a ((mem_electedOf_seq a best).mp hb'))).2 ha
   · intro T hT
     rcases List.mem_append.mp hT with h | h
     · exact absurd h (hnotie T)
@@ -699,7 +699,7 @@ theorem ballotCands_map_one' (l : List Cand) : ballotCands (l.map RankItem.one) 
     rw [ih]; rfl
 
 /-- the substitution loop L587-594 — slices of the ballot and the permuted parts — names nobody new -/
-theorem substitute_cands (S : List Cand) : ∀ (pairs : List (Nat × List Cand)) (var : Ballot) (off : Nat),
+theorem substitute_cands (S : List Cand) : ∀ (pairs : List (Nat × List Cand)) (var : Ballot) (off : Int),
     (∀ c ∈ ballotCands var, c ∈ S) → (∀ ip ∈ pairs, ∀ c ∈ ip.2, c ∈ S) →
     ∀ c ∈ ballotCands (substitute var off pairs), c ∈ S := by
   intro pairs
@@ -753,7 +753,7 @@ theorem mem_dkeys_foldl_addTo_same (l : List Ballot) (w : Rat) (acc : RProfile) 
     tauto
 
 /-- an invariant of the dictionary under construction in `_decouple_equal_rankings` -/
-theorem decouple_inv (P : RProfile → Prop) (p : RProfile) (h0 : P p)
+theorem decouple_inv_seq (P : RProfile → Prop) (p : RProfile) (h0 : P p)
     (hstep : ∀ (nv : RProfile) (bw : Ballot × Rat), bw ∈ p → P nv →
       P ((variants bw.1).foldl (fun nv v => addTo nv v (bw.2 / ((variants bw.1).length : Rat)))
         (nv.filter (fun e => e.1 ≠ bw.1)))) : P (decouple p) := by
@@ -776,9 +776,9 @@ theorem decouple_inv (P : RProfile → Prop) (p : RProfile) (h0 : P p)
       · exact h
   exact key p p (fun _ h => h) h0
 
-theorem decouple_cands_sub (p : RProfile) : ∀ c ∈ allRankedCandidates (decouple p), c ∈ allRankedCandidates p := by
+theorem decouple_cands_sub_seq (p : RProfile) : ∀ c ∈ allRankedCandidates (decouple p), c ∈ allRankedCandidates p := by
   have hinv : ∀ b' ∈ dkeys (decouple p), ∀ c ∈ ballotCands b', c ∈ allRankedCandidates p := by
-    apply decouple_inv (fun nv => ∀ b' ∈ dkeys nv, ∀ c ∈ ballotCands b', c ∈ allRankedCandidates p)
+    apply decouple_inv_seq (fun nv => ∀ b' ∈ dkeys nv, ∀ c ∈ ballotCands b', c ∈ allRankedCandidates p)
     · intro b' hb' c hc
       obtain ⟨bw, hbw, rfl⟩ := List.mem_map.mp hb'
       exact (mem_allRankedCandidates p c).mpr ⟨bw, hbw, hc⟩
@@ -791,8 +791,8 @@ theorem decouple_cands_sub (p : RProfile) : ∀ c ∈ allRankedCandidates (decou
   obtain ⟨bw, hbw, hcb⟩ := (mem_allRankedCandidates _ c).mp hc
   exact hinv _ (List.mem_map.mpr ⟨bw, hbw, rfl⟩) c hcb
 
-theorem decouple_ne_nil {p : RProfile} (hp : p ≠ []) : decouple p ≠ [] := by
-  apply decouple_inv (fun nv => nv ≠ []) p hp
+theorem decouple_ne_nil_seq {p : RProfile} (hp : p ≠ []) : decouple p ≠ [] := by
+  apply decouple_inv_seq (fun nv => nv ≠ []) p hp
   intro nv bw _ _ hnil
   obtain ⟨l, hl⟩ := List.exists_mem_of_ne_nil _ (variants_ne_nil bw.1)
   have := (mem_dkeys_foldl_addTo_same (variants bw.1) (bw.2 / ((variants bw.1).length : Rat))
@@ -807,7 +807,7 @@ theorem paVotes_facts (split : Bool) {p : RProfile} (hp : p ≠ []) :
     (if split then decouple p else p) ≠ [] ∧
     ∀ c ∈ allRankedCandidates (if split then decouple p else p), c ∈ allRankedCandidates p := by
   cases split with
-  | true => exact ⟨decouple_ne_nil hp, decouple_cands_sub p⟩
+  | true => exact ⟨decouple_ne_nil_seq hp, decouple_cands_sub_seq p⟩
   | false => exact ⟨hp, fun _ h => h⟩
 
 /-- the evaluator, on votes that are not empty, returns what its loop built (`Tie.reconcile` changes nothing and never
@@ -941,20 +941,23 @@ theorem bucklin_n_short_witness :
   intro h
   exact absurd h.length (by decide)
 
-/-- NEW FINDING (`offset += len(var_part)`, sequential.py L594, should add `len(var_part) - 1`): from the second shared
-    rank of a ballot on, `_decouple_equal_rankings` substitutes one place too far — the shared rank stays on the ballot
-    as a set and the place behind it is overwritten.  The ballot `({0,1}, {2,3}, 4)` decouples to
-    `(0,1,{2,3},2,3)`, …: candidate 4, ranked by every voter, is never counted, and the default Bucklin fills only four
-    of five seats, whereas `split_equal_rankings=False` fills all five. -/
-theorem bucklin_decouple_offset_witness :
+/-- FIXED by c2fec8e (`offset += len(var_part)`, sequential.py L594, now `len(var_part) - 1`): before the repair, from the
+    second shared rank of a ballot on, `_decouple_equal_rankings` substituted one place too far — the shared rank stayed on
+    the ballot as a set and the place behind it was overwritten: `({0,1}, {2,3}, 4)` had the variant `(0,1,{2,3},2,3)`,
+    candidate 4 (ranked by every voter) was never counted and the default Bucklin filled only four of five seats.  Now the
+    four variants are the four strict orders and all five seats are filled, with and without splitting. -/
+theorem prefix_bucklin_decouple_offset_witness :
+    variantsPreFix [.shared [0, 1], .shared [2, 3], .one 4] =
+      [[.one 0, .one 1, .shared [2, 3], .one 2, .one 3], [.one 0, .one 1, .shared [2, 3], .one 3, .one 2],
+       [.one 1, .one 0, .shared [2, 3], .one 2, .one 3], [.one 1, .one 0, .shared [2, 3], .one 3, .one 2]] ∧
     decouple [([.shared [0, 1], .shared [2, 3], .one 4], 1)] =
-      [([.one 0, .one 1, .shared [2, 3], .one 2, .one 3], 1 / 4), ([.one 0, .one 1, .shared [2, 3], .one 3, .one 2], 1 / 4),
-       ([.one 1, .one 0, .shared [2, 3], .one 2, .one 3], 1 / 4), ([.one 1, .one 0, .shared [2, 3], .one 3, .one 2], 1 / 4)] ∧
+      [([.one 0, .one 1, .one 2, .one 3, .one 4], 1 / 4), ([.one 0, .one 1, .one 3, .one 2, .one 4], 1 / 4),
+       ([.one 1, .one 0, .one 2, .one 3, .one 4], 1 / 4), ([.one 1, .one 0, .one 3, .one 2, .one 4], 1 / 4)] ∧
     preferenceAddition coefBucklin true [([.shared [0, 1], .shared [2, 3], .one 4], 1)] 5 =
-      .ok [Slot.cand 0, Slot.cand 1, Slot.cand 2, Slot.cand 3] ∧
+      .ok [Slot.cand 0, Slot.cand 1, Slot.cand 2, Slot.cand 3, Slot.cand 4] ∧
     preferenceAddition coefBucklin false [([.shared [0, 1], .shared [2, 3], .one 4], 1)] 5 =
       .ok [Slot.cand 0, Slot.cand 1, Slot.cand 2, Slot.cand 3, Slot.cand 4] := by
-  refine ⟨by decide +kernel, by decide +kernel, by decide +kernel⟩
+  refine ⟨by decide +kernel, by decide +kernel, by decide +kernel, by decide +kernel⟩
 
 /-- non-vacuity: a concrete profile with a shared rank meets the hypotheses; two seats are filled -/
 example : ([([.one 0, .shared [1, 2]], (2 : Rat)), ([.one 1, .one 0, .one 2], 2), ([.one 2, .one 1, .one 0], 1)] : RProfile) ≠ [] ∧
